@@ -1,21 +1,14 @@
 import H2V.Model.HpackDec
 import H2V.Spec.Hpack
+import H2V.Props.C11Tables
 import H2V.Lemmas.Huffman
+import H2V.Lemmas.HpackDec
 /-
   C11 — HPACK/Huffman decoding agrees with RFC 7541 on every input, however split.
   Property theorems only (helper lemmas live in `H2V/Lemmas`).
 -/
 namespace H2V.Props.C11
 open H2V
-
-/-- The Huffman code h2 encodes with (`ENCODE_TABLE`, regenerated from the source on every run)
-    is the code of RFC 7541 Appendix B (independent copy), all 257 rows. -/
-theorem huffman_tables_are_rfc :
-    Generated.Huffman.encL = Spec.Rfc7541.huffmanCode := by decide +kernel
-
-/-- `get_static` (regenerated from the source) is the static table of RFC 7541 Appendix A. -/
-theorem static_table_is_rfc :
-    Generated.Static.staticL = Spec.Rfc7541.staticTable := by decide +kernel
 
 /-- For EVERY byte string the byte-indexed table-walk decoder of `hpack/huffman/mod.rs` (u32
     accumulator, tail loop, padding rule, as coded) returns exactly what the canonical bit-by-bit
@@ -45,5 +38,80 @@ theorem huffman_leaf_progress (t i : Nat) (ht : t < 15) (hi : i < 256)
 
 -- non-vacuity: a concrete non-trivial string meets the hypotheses and exercises a 2-level table walk
 example : Model.Huffman.decode (Model.Huffman.encode [35, 0, 255, 104]) = Res.ok [35, 0, 255, 104] := by decide +kernel
+
+open H2V.Model.Hpack in
+/-- `decode_sound`: whenever h2's decoder accepts a (whole) header block, the RFC 7541 reference
+    decoder, started from the abstraction of the same state, accepts it too and assigns it exactly
+    the same field list, and the two dynamic tables agree afterwards; nothing is left undecoded. -/
+theorem decode_sound (d : Decoder) (src : Bytes)
+    (hi : Lemmas.HpackDec.Table.Inv d.table) (hv : Bytes.Valid src) (hc : d.continuing = false)
+    (hr : (d.decode src).result = .ok ()) :
+    Spec.Hpack.decode (Lemmas.HpackDec.abs d) src
+        = .ok ((d.decode src).fields, Lemmas.HpackDec.abs (d.decode src).dec) ∧
+    (d.decode src).tail = [] :=
+  Lemmas.HpackDec.decode_sound (fun bs h => Lemmas.Huffman.decode_eq_spec bs h) d src hi hv hc hr
+
+open H2V.Model.Hpack in
+/-- a block that RFC 7541 makes a decoding error (bad index, oversize or misplaced size update,
+    invalid Huffman padding / EOS, truncation) is never accepted -/
+theorem rfc_error_rejected (d : Decoder) (src : Bytes) (e : Spec.Hpack.Err)
+    (hi : Lemmas.HpackDec.Table.Inv d.table) (hv : Bytes.Valid src) (hc : d.continuing = false)
+    (h : Spec.Hpack.decode (Lemmas.HpackDec.abs d) src = .error e) :
+    (d.decode src).result ≠ .ok () :=
+  Lemmas.HpackDec.spec_error_rejected (fun bs h => Lemmas.Huffman.decode_eq_spec bs h) d src e hi hv hc h
+
+open H2V.Model.Hpack in
+/-- `split_invariance`: for EVERY decoder state, every byte string and every partition of it into
+    fragments, feeding the fragments one by one the way `framed_read` does (undecoded tail carried
+    over, `continue_block` announced, stop at the first non-`NeedMore` error) yields the same
+    fields, the same decoder state, the same tail and the same result as feeding it whole. -/
+theorem split_invariance (d : Decoder) (a : Bytes) (frags : List Bytes) :
+    d.decode (a ++ frags.flatten) = frags.foldl Lemmas.HpackDec.feed (d.decode a) :=
+  Lemmas.HpackDec.split_invariance_list d a frags
+
+open H2V.Model.Hpack in
+/-- `table_within_limit`: after ANY sequence of decode / queue_size_update / continue_block calls
+    the dynamic table's size is the sum of its entries' sizes, never exceeds its maximum, and the
+    maximum never exceeds the largest SETTINGS_HEADER_TABLE_SIZE value the endpoint ever announced.
+    (h2 does not insist that the peer acknowledges a *lowered* limit with a size update; the
+    reference is equally lenient, and the bound is stated accordingly.) -/
+theorem table_within_limit (n : Nat) (ops : List Lemmas.HpackDec.Op) :
+    Lemmas.HpackDec.Table.Inv (Lemmas.HpackDec.run (Decoder.new n) ops).table ∧
+    (Lemmas.HpackDec.run (Decoder.new n) ops).table.size ≤ (Lemmas.HpackDec.run (Decoder.new n) ops).table.maxSize ∧
+    (Lemmas.HpackDec.run (Decoder.new n) ops).table.maxSize ≤ Lemmas.HpackDec.maxQueued n ops :=
+  Lemmas.HpackDec.table_within_limit n ops
+
+open H2V.Model.Hpack in
+/-- the `panic!("Size of table != 0, but no headers left!")` of `Table::consolidate` and the model's
+    fuel bound are unreachable on every input (C08) -/
+theorem decode_never_panics (d : Decoder) (src : Bytes) (hv : Bytes.Valid src)
+    (hi : Lemmas.HpackDec.Table.Inv d.table) :
+    (d.decode src).result ≠ .error .panic ∧ (d.decode src).result ≠ .error .fuel :=
+  ⟨Lemmas.HpackDec.decode_never_panic (fun bs h => Lemmas.Huffman.decode_eq_spec bs h) d src hv hi,
+   Lemmas.HpackDec.decode_never_fuel (fun bs h => Lemmas.Huffman.decode_eq_spec bs h) d src hv hi⟩
+
+open H2V.Model.Hpack in
+/-- prefix integers: `decode_int` agrees with RFC 7541 §5.1 whenever it accepts, never consumes more
+    than 5 octets, and never yields a value that could overflow (`int_limits`) -/
+theorem int_sound_and_bounded (buf : Bytes) (p v : Nat) (rest : Bytes) (hv : Bytes.Valid buf)
+    (h : decodeInt buf p = .ok (v, rest)) :
+    Spec.Hpack.int p buf = some (v, rest) ∧ v < 2 ^ 28 + 2 ^ 8 ∧ buf.length - rest.length ≤ 5 :=
+  ⟨Lemmas.HpackDec.decodeInt_sound buf p v rest hv h,
+   (Lemmas.HpackDec.decodeInt_bounded buf p v rest h).1, (Lemmas.HpackDec.decodeInt_bounded buf p v rest h).2.2⟩
+
+open H2V.Model.Hpack in
+/-- `decode_int (encode_int v) = v` for every value up to the exact 5-octet limit -/
+theorem int_roundtrip (v p first : Nat) (rest : Bytes)
+    (hp : 1 ≤ p ∧ p ≤ 8) (hf : first % 2 ^ p = 0) (hv : v < 2 ^ 28 + 2 ^ p - 1) :
+    decodeInt (encodeInt v p first ++ rest) p = .ok (v, rest) :=
+  Lemmas.HpackDec.int_roundtrip_exact v p first rest hp hf hv
+
+-- non-vacuity: the RFC 7541 C.3.1 request block is accepted from the initial state, whose table
+-- satisfies the invariant
+open H2V.Model.Hpack in
+example : Lemmas.HpackDec.Table.Inv (Decoder.new 4096).table ∧
+    (match ((Decoder.new 4096).decode [130, 134, 132, 65, 15, 119, 119, 119, 46, 101, 120, 97, 109, 112, 108, 101, 46, 99, 111, 109]).result with
+      | .ok _ => true | .error _ => false) = true :=
+  ⟨Lemmas.HpackDec.new_inv 4096, by decide +kernel⟩
 
 end H2V.Props.C11
